@@ -16,6 +16,10 @@ import (
 
 var badInts = []pdfw.Obj{0, -1, 2147483648, 9223372036854775807, pdfw.Raw("1" + strings.Repeat("0", 400)), 1000000, -2147483649}
 
+// sameAsReal: variant index (after the bad integers and "drop") that spells an integer
+// field as a real number of the same value ("12.0").
+const sameAsReal = 8
+
 var repeatTokens = []string{"q ", "[ ", "<< ", "( ", "BT ", "q 1 0 0 1 0 0 cm ", "/Span << /MCID 0 >> BDC "}
 
 var addKeys = []string{"Extends", "Parent", "Prev", "Next", "First", "Kids", "ToUnicode", "Resources", "Length", "XRefStm"}
@@ -192,7 +196,7 @@ func EnumPDFFields(spec pdfw.DocSpec) []Fault {
 		}
 	}
 	for rev := 0; rev <= spec.Revisions; rev++ {
-		for _, k := range []string{"prev-self", "prev-zero", "prev-huge", "prev-negative", "prev-header"} {
+		for _, k := range []string{"prev-self", "prev-zero", "prev-huge", "prev-negative", "prev-header", "prev-self-real", "prev-real"} {
 			out = append(out, Fault{Layer: "pdfobj", Kind: k, A: int64(rev)})
 		}
 	}
@@ -353,7 +357,7 @@ func EnumPDFPairs(spec pdfw.DocSpec) [][]Fault {
 func variants(v pdfw.Obj, root int) int {
 	switch v.(type) {
 	case int:
-		return len(badInts) + 1 // + drop
+		return len(badInts) + 2 // + drop + the same value as a real
 	case pdfw.Real:
 		return 4
 	case pdfw.Ref:
@@ -397,6 +401,9 @@ func mutate(v pdfw.Obj, i int, self, root int) (nv pdfw.Obj, drop bool) {
 	case int:
 		if i < len(badInts) {
 			return badInts[i], false
+		}
+		if i == sameAsReal {
+			return pdfw.Real(float64(x)), false
 		}
 		return nil, true
 	case pdfw.Real:
@@ -615,7 +622,7 @@ func ApplyPDFFields(spec pdfw.DocSpec, fs []Fault) []byte {
 				continue
 			}
 			switch f.Kind {
-			case "prev-self":
+			case "prev-self", "prev-self-real":
 				return xrefOff
 			case "prev-zero":
 				return 0
@@ -651,7 +658,11 @@ func ApplyPDFFields(spec pdfw.DocSpec, fs []Fault) []byte {
 			break
 		}
 	}
-	return pdfw.GenerateHooks(spec, pdfw.Hooks{Obj: hook, Prev: prev, Entry: entry}).Built.Bytes
+	prevReal := false
+	for _, f := range fs {
+		prevReal = prevReal || (f.Layer == "pdfobj" && (f.Kind == "prev-self-real" || f.Kind == "prev-real"))
+	}
+	return pdfw.GenerateHooks(spec, pdfw.Hooks{Obj: hook, Prev: prev, Entry: entry, PrevReal: prevReal}).Built.Bytes
 }
 
 var _ = fmt.Sprint
